@@ -199,6 +199,7 @@ func gen(seed uint64, tier string, idx int) sim.CaseI {
 	}
 	n := wr.Range(2, maxT)
 	shape := wr.Intn(5) // 0 chain, 1 fan-in/out, 2 diamond-ish dense, 3 sparse, 4 mixed
+	listHeavy := wr.Bool(0.2) // most tasks are elements of one list (results are folded in by index)
 	genAt, dynAt, colAt := -1, -1, -1
 	if wr.Bool(0.35) && n >= 3 {
 		genAt = wr.Intn(n - 1)
@@ -223,7 +224,7 @@ func gen(seed uint64, tier string, idx int) sim.CaseI {
 			switch p := wr.Intn(10); {
 			case p == 0:
 				t.Place = "grp"
-			case p == 1:
+			case p == 1 || (listHeavy && p < 8):
 				t.Place = "list"
 			case p == 2 && c.InferTasks:
 				t.Place = "ext"
